@@ -86,6 +86,8 @@ type guardState struct {
 	paths  map[string][]string // fact -> access paths it mentions
 	caseOf map[*ast.CaseClause]ast.Stmt
 	single map[*types.Var]ast.Expr // locals assigned exactly once, with initialiser
+	// resolve, when set (path enumeration), maps a boolean local to the facts of its current symbolic value
+	resolve func(id *ast.Ident, pol bool) ([]string, bool)
 }
 
 func mayReturn(info *types.Info) func(*ast.CallExpr) bool {
@@ -327,12 +329,14 @@ func (gs *guardState) condFacts(cond ast.Expr, pol bool, depth int) []string {
 			if pol {
 				return append(gs.condFacts(c.X, true, depth), gs.condFacts(c.Y, true, depth)...)
 			}
-			return nil
+			add(fFalse(canon(gs.info, c)), c.X, c.Y)
+			return out
 		case token.LOR:
 			if !pol {
 				return append(gs.condFacts(c.X, false, depth), gs.condFacts(c.Y, false, depth)...)
 			}
-			return nil
+			add(fTrue(canon(gs.info, c)), c.X, c.Y)
+			return out
 		case token.EQL, token.NEQ:
 			eq := (c.Op == token.EQL) == pol // true: operands equal
 			x, y := c.X, c.Y
@@ -388,6 +392,14 @@ func (gs *guardState) condFacts(cond ast.Expr, pol bool, depth int) []string {
 			return out
 		}
 	case *ast.Ident:
+		if gs.resolve != nil {
+			if fs, ok := gs.resolve(c, pol); ok {
+				for _, f := range fs {
+					add(f, c)
+				}
+				return out
+			}
+		}
 		if v, ok := gs.info.Uses[c].(*types.Var); ok {
 			if init, ok := gs.single[v]; ok && depth < 4 {
 				// implication facts recorded at the definition are resolved by the solver;
@@ -588,6 +600,20 @@ func (gs *guardState) transfer(s factSet, n ast.Node) {
 	case *ast.AssignStmt:
 		for _, l := range n.Lhs {
 			assign(l)
+		}
+		// x = append(x, a, ...) with at least one explicit element: len(x) > 0 afterwards
+		if len(n.Lhs) == 1 && len(n.Rhs) == 1 {
+			if call, ok := unparen(n.Rhs[0]).(*ast.CallExpr); ok && !call.Ellipsis.IsValid() && len(call.Args) >= 2 {
+				if id, ok := call.Fun.(*ast.Ident); ok {
+					if b, ok := gs.info.Uses[id].(*types.Builtin); ok && b.Name() == "append" {
+						if lp, ok := selectorPath(gs.info, n.Lhs[0]); ok {
+							f := fFalse("len(" + lp + ") == 0")
+							gs.paths[f] = []string{lp}
+							s[f] = struct{}{}
+						}
+					}
+				}
+			}
 		}
 		// implication facts for single-assignment booleans
 		if len(n.Lhs) == len(n.Rhs) {
